@@ -25,6 +25,7 @@ ASSUMPTIONS = ["configurations avoid the one ambiguity of the statement: an appl
                "time-outs are ordered logically: a 'late' answer is withheld until the caller thread has returned",
                "hop-by-hop uniqueness is judged per connection (the statement's quantifier)"]
 TIMEOUT = {"quick": 900, "thorough": 3600}
+SCTP_CLONES = {"quick": ['rand13'], "thorough": ['rand14', 'rand15']}
 STATES = ["none", "connected", "ready", "waiting_dwa", "disconnecting", "closed"]
 PLANS = ["prompt", "late", "dup", "unknown", "wrong_e2e", "wrong_hbh", "never"]
 CALLBACKS = ["default", "first", "last", "seeded"]
